@@ -79,7 +79,7 @@ def run(ctx):
         for c in C15.corpus_cases():
             inputs.append(('corpus', {'main': c['main'], 'files': c['files'], 'note': c['name']}))
         seeds = []
-        for k in range(10 if thorough else 5):
+        for k in range(24 if thorough else 5):
             conf = G.gen_conf(rng, small=True)
             seeds.append(G.make_case(conf, rng, tag='c03s%d' % k, include_p=0.15 if k % 2 else 0, allow_abs=False))
         for s in seeds:
@@ -90,7 +90,7 @@ def run(ctx):
                 except UnicodeDecodeError:
                     continue
                 inputs.append(('prefix', dict(s, main=t)))
-        for _ in range(30000 if thorough else 2500):
+        for _ in range(200000 if thorough else 2500):
             s = rng.choice(seeds)
             t = s['main']
             for _ in range(rng.choice([1, 1, 2, 3])):
@@ -128,7 +128,7 @@ def run(ctx):
                     inputs.append(('exh', {'main': 'server {\ninclude ' + t + '\n}\n', 'files': {'a': 'k 1', '1': 'k 2', 'é': ''}}))
         # random valid UTF-8
         pool = 'ab1 \n\t{}"#KMG-+.é€\U0001F600 \r'
-        for _ in range(4000 if thorough else 500):
+        for _ in range(20000 if thorough else 500):
             n = rng.choice([0, 1, 3, 10, 40, 200])
             t = ''.join(rng.choice(pool) for _ in range(n))
             if rng.random() < 0.6:
